@@ -3,6 +3,7 @@ from .rules import spec as R_spec
 from .rules import c17 as R_c17
 from .rules import c11 as R_c11
 from .rules import c08 as R_c08
+from .rules import c05 as R_c05
 
 Q = ("quick", "thorough")
 T = ("thorough",)
@@ -74,5 +75,24 @@ PROPS = {
         technique="must-pass-through (post-dominance) on statement CFGs + path enumeration of transfer loops",
         trusted_base=["vstat.cfg", "refresher summary in vstat/rules/c08.py"],
         assumptions=["a zone's object list is only reachable through the attribute name _map"],
+    ),
+    "C05": dict(
+        title="A decoded instruction is determined by the bytes it consumes",
+        explanation=(
+            "Decides the structural clauses of C05 for all variable-length ISAs: (R-PAIR) in every setup function and tail "
+            "helper (221 functions: getModRM x2, msp430 getopd, immediate/LEB128 readers) each consuming read of the variable "
+            "tail is followed on every normal path by `obj.bytes += <that piece>` (consumed bytes are recorded bytes, so "
+            "instruction.bytes is a prefix of the input and length accounts for everything read); (R-TAILCHK) each bounded "
+            "tail slice is dominated by a raising length test of the same tail against the same bound (so a buffer that ends "
+            "before the piece is rejected instead of decoding differently from the same bytes followed by a suffix); "
+            "(R-MAXLEN) cpu modules with '*'/'&' specs set disassemble.maxlen explicitly; (R-FMT) every spec has LEN>=8 "
+            "(length >= 1). Does NOT decide equality of d(b), d(b[:n]), d(b[:n]+t) for all inputs nor over-reads inside ispec.decode."
+        ),
+        rules=[(R_c05.r_pair, Q), (R_c05.r_tailchk, Q), (R_spec.r_maxlen, Q), (R_spec.r_fmt, Q)],
+        level_text="partial: def-use pairing and dominance on the CFG of all 221 tail-taking functions (69 with direct reads, 65 bounded slices) of every ISA; the tests decode a handful of ModRM forms and never a truncated immediate",
+        level_note="Trusted: tail variables are tracked by the enumerated rebinding idioms (pack(), open slices, tuple split, helper return); crysp Bits slicing semantics (short slices do not raise); a piece that is only inspected in tests is look-ahead (undecided, not alarmed).",
+        technique="def-use pairing + dominator/must-pass-through queries on statement CFGs, table lint of cpu modules",
+        trusted_base=["vstat.cfg", "idiom tables in vstat/rules/c05.py"],
+        assumptions=["variable tails are only delivered through (*) directives"],
     ),
 }
